@@ -10,7 +10,7 @@ LEVEL = "exploration"
 NEEDS_EBD = True
 RULE = ("histories on small repositories (overlay O with master M, 1-2 ebuilds inheriting 0-3 eclasses found in O or M) with an "
         "md5-cache or a flat_hash (mtime) cache: warm the cache, then random edits (ebuild content with same/later/EARLIER mtime, "
-        "ebuild touch forwards/backwards, eclass content, eclass touch, eclass removed, eclass moved overlay<->master with identical content, cache "
+        "ebuild touch forwards/backwards, eclass content, eclass touch, overlay starts / stops shadowing a master eclass, eclass removed, eclass moved overlay<->master with identical content, cache "
         "entry edits: INHERIT dropped, wrong checksum, truncated _eclasses_, entry removed, unrelated files) interleaved with "
         "metadata reads through FRESH repository objects. Oracle per read: daemon regeneration observed (counting proxy on "
         "EbuildProcessor.get_keys) <=> the on-disk entry is invalid by an independent validity model; metadata returned == a "
@@ -27,7 +27,7 @@ SHARDS = {"quick": 4, "thorough": 16}
 TIMEOUT = {"quick": 360, "thorough": 1800}
 MIN_EVALS = 60
 REQUIRED_COUNTERS = ("reads", "contract_get_keys_calls", "reads_served_from_cache", "reads_regenerated",
-                     "backdated_source_epilogues:flat", "backdated_source_epilogues:md5")
+                     "backdated_source_epilogues:flat", "backdated_source_epilogues:md5", "shadowing_epilogues")
 TECHNIQUE = "runtime monitoring: history of edits/reads on real repos+daemon; regeneration observed vs independent validity model"
 
 ECL_NAMES = ["e1", "e2", "e3"]
@@ -210,7 +210,7 @@ def edit(ctx, w, cpvs):
              "eclass-touch", "eclass-remove", "eclass-move", "entry-drop-INHERIT", "entry-wrong-checksum",
              "entry-truncate-eclasses", "entry-remove", "unrelated-file", "ebuild-drop-inherit",
              "ebuild-content-older-mtime", "ebuild-touch-older", "eclass-content-older-mtime", "eclass-touch-older",
-             "entry-wrong-checksum-later"]
+             "entry-wrong-checksum-later", "eclass-shadow", "eclass-shadow", "eclass-unshadow"]
     k = rng.choice(kinds)
     w.counter += 1
     older = lambda st: st.st_mtime - rng.choice([1, 3, 60, 86400, 40000000])  # restored / synced with an earlier timestamp
@@ -239,6 +239,23 @@ def edit(ctx, w, cpvs):
             # re-create a removed eclass
             w.write(w.eclass_path(rng.choice(["o", "m"]), name), 'IUSE="%s_flag re%d"\n' % (name, w.counter))
             return "eclass-recreate"
+        if k == "eclass-shadow":
+            # the overlay starts shipping its own (different) copy of an eclass that so far came from the master; the
+            # master's file stays untouched
+            mp, op = w.eclass_path("m", name), w.eclass_path("o", name)
+            if os.path.isfile(mp) and not os.path.exists(op):
+                with open(mp) as f:
+                    text = f.read()
+                st = os.stat(mp)
+                w.write(op, text + 'IUSE+=" sh%d"\n' % w.counter, mtime=st.st_mtime if rng.random() < 0.3 else None)
+                return k
+            return "eclass-shadow-noop"
+        if k == "eclass-unshadow":
+            mp, op = w.eclass_path("m", name), w.eclass_path("o", name)
+            if os.path.isfile(mp) and os.path.isfile(op):
+                os.unlink(op)
+                return k
+            return "eclass-unshadow-noop"
         if k in ("eclass-content", "eclass-content-same-mtime", "eclass-content-older-mtime"):
             st = os.stat(cur)
             with open(cur) as f:
@@ -448,6 +465,35 @@ def one_history(ctx, obs, tag, script=None, kind=None):
             ebd.take_stalls()
             regen, meta, err = obs.read(w, cpv)
             _judge_read(ctx, w, obs, cpv, valid, reason, regen, meta, err, ebd.take_stalls(), log, pending, 99)
+    # directed epilogue: the overlay starts shadowing an eclass the entry recorded from the master (master file untouched)
+    if not ctx.out_of_time(50):
+        for cpv in cpvs:
+            d = w.parse_entry(cpv) or {}
+            names = [n for n in (d.get("_eclasses_") or "").split("\t")[:: (2 if w.kind == "md5" else 3)] if n]
+            cands = [n for n in names if os.path.isfile(w.eclass_path("m", n)) and not os.path.exists(w.eclass_path("o", n))]
+            if not cands:
+                continue
+            valid, reason = w.entry_valid(cpv)
+            ebd.take_stalls()
+            regen, meta, err = obs.read(w, cpv)   # refresh first
+            _judge_read(ctx, w, obs, cpv, valid, reason, regen, meta, err, ebd.take_stalls(), log, pending, 99)
+            name = rng.choice(cands)
+            mp = w.eclass_path("m", name)
+            with open(mp) as f:
+                text = f.read()
+            w.counter += 1
+            w.write(w.eclass_path("o", name), text + 'IUSE+=" shep%d"\n' % w.counter)
+            w.all_edits.append("eclass-shadow")
+            log.append(["edit", "eclass-shadow(epilogue:%s)" % name])
+            for c in cpvs:
+                pending[c].append("eclass-shadow")
+            ctx.count("shadowing_epilogues:" + w.kind)
+            ctx.count("shadowing_epilogues")
+            valid, reason = w.entry_valid(cpv)
+            ebd.take_stalls()
+            regen, meta, err = obs.read(w, cpv)
+            _judge_read(ctx, w, obs, cpv, valid, reason, regen, meta, err, ebd.take_stalls(), log, pending, 99)
+            break
     shutil.rmtree(w.base, ignore_errors=True)
 
 
